@@ -319,6 +319,24 @@ func (c *TermCtx) Bin(op Op, a, b *Term) *Term {
 			}
 		}
 	}
+	if op == OpXor { // (x ^ k) ^ k = x
+		if a.op == OpXor {
+			if a.a == b {
+				return a.b
+			}
+			if a.b == b {
+				return a.a
+			}
+		}
+		if b.op == OpXor {
+			if b.a == a {
+				return b.b
+			}
+			if b.b == a {
+				return b.a
+			}
+		}
+	}
 	if a == b {
 		switch op {
 		case OpAnd, OpOr:
